@@ -646,7 +646,14 @@ CHECKS["C06"].update({
              "fragment names inside the memo-neutrality theorem (overlap_memo_neutral_tableAcyclic). Why noMetaSubsB is a real exclusion is "
              "machine-checked (Props/C06_overlap_meta.lean: meta_sibling_hides_report, parentsAgree_false_below_meta, "
              "memo_iff_needs_parentsAgree; reproduced on the real validator, corpus meta_subselections). "
-             "Structural theorems for EVERY rule list: typeinfo_balanced / selections_balanced / definitions_balanced, "
+             "THE VERDICT OF THE CHAIN IS THE CONJUNCTION OF THE RULES RUN ALONE (Props/C06_chain.lean; until now only exercised): frame "
+             "property of the 26 visitors (framed_enterRule, framed_enterRuleM: a rule reads / writes only its own part of the rule state, "
+             "prepends only its own errors, its SkipNode flag depends on its own part; Lemmas/ValidateChainFrame*.lean, 26 rules x 14 node kinds), "
+             "chainPar_silent_iff (any list of pairwise different rules: the chain records no error iff every member alone records none; "
+             "skip_reports + equal flags => nobody skips while one side is quiet), hence chain_silent_iff_alone, verdict_iff_alone and, for the "
+             "chain /repo runs (runM = the model the driver answers with), chainM_silent_iff_alone, chainM_silent_iff_spec / verdictM_iff_spec "
+             "(accepted iff no exception and the clauses of all 26 rules hold) and chainM_six_transformations (verdict of the chain invariant "
+             "under the six transformations). Structural theorems for EVERY rule list: typeinfo_balanced / selections_balanced / definitions_balanced, "
              "skip_reports (a rule that skips has just added an error), rule_single_field_subscriptions_declarative_iff (CollectFields restricted to keys = "
              "reachable response keys). TIED by correspondence (model chain vs validate_ast: verdict on every document; set of reporting rules on documents "
              "with at most one injected violation; every rule standalone; memoised vs un-memoised model cross-check per document; schema and rule-instance "
@@ -654,15 +661,14 @@ CHECKS["C06"].update({
              "violations => an error attributable to that rule, verdict unchanged under the six transformations (+ whitespace/comma/comment re-spelling), "
              "deterministic block memo_mode_table (memo key = triple)."),
     "note": ("Trusted: Lean kernel; generators / injectors (validity by construction, one labelled violation each); is_subtype / types_overlap hand-modelled "
-             "(re-extracted where the translator applies). ONLY EXERCISED (no theorem): inside the full 26-rule chain the overlap rule loses the selection "
-             "sets below a node another rule skipped (modelled by runM, compared with the real validator); that the verdict of the full chain is the conjunction of "
-             "the rules run alone (chain-does-not-decompose on the real code); the un-memoised half of OverlapMemoNeutralStatement on documents whose "
+             "(re-extracted where the translator applies). ONLY EXERCISED (no theorem): that the chain raises no exception (the crash = none conjunct of "
+             "verdictM_iff_spec; every raising input of the real validator is reported by the correspondence); the un-memoised half of OverlapMemoNeutralStatement on documents whose "
              "fragment table has a cycle of bare spreads (OverlapMemoNeutralOpenRegion; cross-checked per document, memo:crosscheck); documents with __schema { .. } / __type { .. } sub-selections are outside the "
              "clause-level statements (ParentsAgree is false there and the rule's equivalence fails without it: memo_iff_needs_parentsAgree; counted, "
              "compared with the real validator; MetaExtensionStatement is open); fragment variable definitions (parse option) "
              "are corpus-tested against the real code only (model-does-not-cover:parse-options). Known finding V8 (list literal at a non-list position "
              "accepted: the code's clause is proved, the specification's clause refuted). Repaired on the way: V3, V4, V7, V9, V10, V11, H3, H5, H6, "
              "enter_list_value (C06/1, C06/2), overlap memo (fix 7e75356)."),
-    "technique": ("Lean 4 proof (all 26 rules: model silent <=> declarative clause, memoised overlap search included; chain-level verdict / attribution; "
-                  "invariance under six transformations) + full-chain model correspondence + labelled-violation / metamorphic oracle"),
+    "technique": ("Lean 4 proof (all 26 rules: model silent <=> declarative clause, memoised overlap search included; verdict of the chain = conjunction "
+                  "of the rules alone; attribution; invariance under six transformations) + full-chain model correspondence + labelled-violation / metamorphic oracle"),
 })
